@@ -322,6 +322,10 @@ def norm_snap(s):
     s = dict(s)
     if not s['oids'] or not s['sids']:
         s['mat'] = [[] for _ in s['oids']]
+    if not s['oids']:
+        s['omd'] = None          # metadata of an axis without ids: () and None are the same thing
+    if not s['sids']:
+        s['smd'] = None
     return s
 
 
